@@ -37,7 +37,9 @@ import (
 //   frame   := S<series> | W<msg> | H<payload> | B<series> ('&' <series>)* | B
 //   sframe  := <0|1><frame>                      1 = the proxy-side shard matcher keeps the frame (computed by the generator
 //                                                with the real ShardMatcher; ignored by Exec, which runs the real matcher)
-//   store   := <supportsSharding><supportsWithout><openErr>:<n | r<k> | h<k>>:<recvMsg>,<timeoutMsg>,<openMsg>:<sframe (';' sframe)* | ->
+//   store   := <supportsSharding><supportsWithout><openErr>[kind]:<n | r<k>[kind] | h<k>>:<recvMsg>,<timeoutMsg>,<openMsg>:<sframe (';' sframe)* | ->
+//   kind    := p | g | d | u | w | c | e   the error value the failing call returns (kindErr in fake.go): plain (default), gRPC status,
+//              context.DeadlineExceeded, io.ErrUnexpectedEOF, an error wrapping io.EOF (%w), a type with Is(io.EOF) = true, io.EOF itself
 //                                                r<k>: the Recv after k delivered frames fails; h<k>: … hangs until the frame timeout;
 //                                                the three messages are the warning texts the real code produces (inputs of the model)
 //   stores  := store ('|' store)* | -
@@ -92,6 +94,7 @@ type pFrame struct {
 type pStore struct {
 	sharding, without, openErr bool
 	recvErrAt, hangAt          int
+	recvKind, openKind         byte // error kind of the failing Recv / Series() call
 	frames                     []pFrame
 }
 
@@ -197,14 +200,25 @@ func parseFrameTok(s string) (pFrame, bool) {
 
 func parseStoreTok(s string) (*pStore, bool) {
 	p := strings.Split(s, ":")
-	if len(p) != 4 || len(p[0]) != 3 {
+	if len(p) != 4 || (len(p[0]) != 3 && len(p[0]) != 4) {
 		return nil, false
 	}
-	st := &pStore{sharding: p[0][0] == '1', without: p[0][1] == '1', openErr: p[0][2] == '1', recvErrAt: -1, hangAt: -1}
+	st := &pStore{sharding: p[0][0] == '1', without: p[0][1] == '1', openErr: p[0][2] == '1', recvErrAt: -1, hangAt: -1, recvKind: 'p', openKind: 'p'}
+	if len(p[0]) == 4 {
+		if !isErrKind(p[0][3]) {
+			return nil, false
+		}
+		st.openKind = p[0][3]
+	}
 	switch {
 	case p[1] == "n":
 	case strings.HasPrefix(p[1], "r"):
-		k, err := strconv.Atoi(p[1][1:])
+		num := p[1][1:]
+		if len(num) > 0 && isErrKind(num[len(num)-1]) {
+			st.recvKind = num[len(num)-1]
+			num = num[:len(num)-1]
+		}
+		k, err := strconv.Atoi(num)
 		if err != nil {
 			return nil, false
 		}
@@ -405,9 +419,9 @@ func buildProxy(rq *mergeReq, sched uint64) *store.ProxyStore {
 	var clients []store.Client
 	for i, st := range rq.stores {
 		fc := &fakeClient{name: storeName(i), mint: math.MinInt64, maxt: math.MaxInt64, shardable: st.sharding, withoutReplica: st.without,
-			recvErrAt: st.recvErrAt, hangAt: st.hangAt}
+			recvErrAt: st.recvErrAt, hangAt: st.hangAt, recvErr: kindErr(st.recvKind, errInjected.Error())}
 		if st.openErr {
-			fc.openErr = errOpen
+			fc.openErr = kindErr(st.openKind, errOpen.Error())
 		}
 		if st.hangAt >= 0 {
 			hasHang = true
@@ -461,7 +475,7 @@ func runProxy(rq *mergeReq, sched uint64) (status string, resps []*storepb.Serie
 		status = "aborted"
 	case err == store.ErrorNoStoresAvailable:
 		status = "unavailable"
-	case strings.Contains(err.Error(), errOpen.Error()):
+	case strings.Contains(err.Error(), "fetch series for "):
 		status = "err-open"
 	default:
 		status = "err:" + err.Error()
@@ -522,7 +536,8 @@ func deliveredPerStore(rq *mergeReq) (per [][]*storepb.Series, sortedInputs bool
 				}
 			}
 		}
-		if (st.recvErrAt >= 0 && st.recvErrAt <= n) || (st.hangAt >= 0 && st.hangAt <= n) {
+		// a Recv that returns io.EOF itself is the end of the stream, not a failure
+		if (st.recvErrAt >= 0 && st.recvErrAt <= n && st.recvKind != 'e') || (st.hangAt >= 0 && st.hangAt <= n) {
 			failed[si] = true
 		}
 		resort := !st.without && len(rq.without) > 0
@@ -1006,6 +1021,7 @@ func protoChunks(c *hlib.Ctx, n int, aggr bool, collisions bool) []gChunk {
 
 type gStoreCfg struct {
 	sharding, without, openErr bool
+	recvKind, openKind         byte
 	fail                       string
 	frames                     []string // without the keep bit
 	keep                       []bool
@@ -1019,11 +1035,13 @@ func realKeep(sm *storepb.ShardMatcher, ls []gLabel) bool {
 	return sm.MatchesZLabels(labelpb.ZLabelsFromPromLabels(labels.New(l...)))
 }
 
-func warnMsgs(i int, hang bool) string {
+func warnMsgs(i int, hang bool) string { return warnMsgsKind(i, 'p', 'p') }
+
+func warnMsgsKind(i int, recvKind, openKind byte) string {
 	name := storeName(i)
-	recv := "receive series from " + name + ": " + errInjected.Error()
+	recv := "receive series from " + name + ": " + kindErr(recvKind, errInjected.Error()).Error()
 	to := fmt.Sprintf("failed to receive any data in %s from %s: context canceled", hangTimeout, name)
-	open := "fetch series for Store Gateway " + name + ": " + errOpen.Error()
+	open := "fetch series for Store Gateway " + name + ": " + kindErr(openKind, errOpen.Error()).Error()
 	return hlib.HexS(recv) + "," + hlib.HexS(to) + "," + hlib.HexS(open)
 }
 
@@ -1183,10 +1201,18 @@ func genMergeCaseOpt(c *hlib.Ctx, o mergeGenOpt) string {
 			nonSeries++
 			c.Count("frame:hints")
 		}
+		st.recvKind, st.openKind = 'p', 'p'
 		if r.Intn(100) < failPct {
+			// which error value the failing call returns
+			kind := byte('p')
+			if r.Chance(3, 5) {
+				kind = "gduwce"[r.Intn(6)]
+			}
+			c.Count("failure:kind-" + string(kind))
 			switch r.Intn(6) {
 			case 0:
 				st.openErr = true
+				st.openKind = kind
 				c.Count("failure:open")
 			case 1:
 				st.fail = fmt.Sprintf("h%d", r.Intn(len(st.frames)+1))
@@ -1199,6 +1225,10 @@ func genMergeCaseOpt(c *hlib.Ctx, o mergeGenOpt) string {
 				st.fail = fmt.Sprintf("r%d", r.Intn(len(st.frames)+1))
 				if o.earlyFail {
 					st.fail = "r0"
+				}
+				if kind != 'p' {
+					st.fail += string(kind)
+					st.recvKind = kind
 				}
 				nonSeries++
 				c.Count("failure:recv")
@@ -1221,7 +1251,11 @@ func genMergeCaseOpt(c *hlib.Ctx, o mergeGenOpt) string {
 			}
 			return "0"
 		}
-		storeToks = append(storeToks, fmt.Sprintf("%s%s%s:%s:%s:%s", b(st.sharding), b(st.without), b(st.openErr), st.fail, warnMsgs(si, false), hlib.Join(fr, ";")))
+		ok := ""
+		if st.openKind != 'p' {
+			ok = string(st.openKind)
+		}
+		storeToks = append(storeToks, fmt.Sprintf("%s%s%s%s:%s:%s:%s", b(st.sharding), b(st.without), b(st.openErr), ok, st.fail, warnMsgsKind(si, st.recvKind, st.openKind), hlib.Join(fr, ";")))
 	}
 	if allowLimit && dedup && !multiNonSeries && r.Chance(1, 10) {
 		limit = r.Range(1, 4)
